@@ -143,7 +143,12 @@ def v1_sequences(ctx: Ctx, n: int):
             post = w.dump()
             ctx.impl_traces += 1
             v1_step_oracle(ctx, w, op, cls, out, res, pre, post, spec)
-            pending.append((kind, op, cls, out, res, acts, post, spec,
+            unit = F(0)          # one token wei worth of GLP: what a 1 bp fee difference can move across a round-down step of the buy
+            if op["kind"] == "buy" and out == "ok":
+                r_ = w.market.market_status.data
+                if F(r_["glp_price"]) > 0:
+                    unit = F(1, 10 ** w.token(op["tok"]).decimal) * F(r_[f"{op['tok']}_price"]) / G.E30 / F(r_["glp_price"])
+            pending.append((kind, op, cls, out, res, acts, post, spec, unit,
                             w.step_request(pre, env, op)))
     if not ctx.driver_ok:
         for kind, op, cls, out, *_ in pending:
@@ -151,7 +156,7 @@ def v1_sequences(ctx: Ctx, n: int):
         return
     ans = driver_json([p[-1] for p in pending], exe="driver_gmx")
     ex = driver_json([dict(p[-1], ctx="exact") for p in pending], exe="driver_gmx")
-    for (kind, op, cls, out, res, acts, post, spec, req), a, e in zip(pending, ans, ex):
+    for (kind, op, cls, out, res, acts, post, spec, unit, req), a, e in zip(pending, ans, ex):
         rep = {"world": spec, "ops": [ser_op(op)]}
         if "error" in a:
             ctx.disagree(f"driver error {a['error']}", rep)
@@ -172,7 +177,7 @@ def v1_sequences(ctx: Ctx, n: int):
                 # exact and 35-digit arithmetic disagree visibly: only the int() of the tax can do that (theorems
                 # C17_v1_capped_tax_rounding_exactly_1bp / ..._round35_exactly_1bp: 84 instead of 85 bp in the capped branch)
                 ctx.count(f"exact_vs_py_visible_difference:{a['tag']}")
-                if abs(x - y) > F(2, 10 ** 4) * max(abs(x), abs(y)):
+                if abs(x - y) > F(2, 10 ** 4) * max(abs(x), abs(y)) + 2 * unit:     # + the round-down step the 1 bp may cross (tiny buys of 6/8-decimal tokens)
                     ctx.disagree(f"v1 {op['kind']}: exact-arithmetic result {float(x)!r} and implementation {res} differ by more than the 1 bp the rounding lemma allows", rep)
 
 
